@@ -1,3 +1,384 @@
 // Kani harnesses (child module of crates/axmos-db/src/types/mod.rs).  See /verif/HARNESS_GUIDE.md
+// C16 (never a panic): DataType::{add,sub,mul,div,rem} and DataType::abs at full width.
+//
+// How the 36 ordered numeric type pairs are partitioned (types/numeric.rs `promote_symmetric!`):
+//   * a pair with a Float/Double operand is computed in f64               -> "float pairs" (20 ordered pairs)
+//   * {UInt,BigUInt} x {UInt,BigUInt} is computed in u64                  -> "U pairs"     (4)
+//   * every other integer pair is computed in i64 (`x.0 as i64`)          -> "I pairs"     (12)
+// Regions (decided on the operands *as promoted by the code*):
+//   exact     : no BigUInt operand >= 2^63 inside an I pair (otherwise `as i64` already changed the value)
+//   overflow  : the i64 / u64 operation on the promoted operands is not representable (checked_* is None)
+//   zero      : promoted divisor == 0            min_neg1 : i64::MIN / -1  (resp. %)
+// `*_ok` harnesses assume exact && !overflow && !zero && !min_neg1 and must pass; every other region has its own
+// harness (expected to be violated on the pinned tree: Rust's overflow / division checks fire => panic).
 #![allow(unused_imports, dead_code, clippy::all)]
 use super::*;
+
+fn okf<T, E>(r: Result<T, E>) -> Option<T> {
+    match r {
+        Ok(v) => Some(v),
+        Err(e) => {
+            std::mem::forget(e);
+            None
+        }
+    }
+}
+fn v_int() -> DataType {
+    DataType::Int(Int32(kani::any()))
+}
+fn v_bigint() -> DataType {
+    DataType::BigInt(Int64(kani::any()))
+}
+fn v_uint() -> DataType {
+    DataType::UInt(UInt32(kani::any()))
+}
+fn v_biguint() -> DataType {
+    DataType::BigUInt(UInt64(kani::any()))
+}
+fn v_float() -> DataType {
+    DataType::Float(Float32(kani::any()))
+}
+fn v_double() -> DataType {
+    DataType::Double(Float64(kani::any()))
+}
+
+const ADD: u8 = 0;
+const SUB: u8 = 1;
+const MUL: u8 = 2;
+const DIV: u8 = 3;
+const REM: u8 = 4;
+
+/// the call under test; never lets the Result drop
+fn arith(op: u8, a: &DataType, b: &DataType) -> Option<DataType> {
+    okf(match op {
+        ADD => a.add(b),
+        SUB => a.sub(b),
+        MUL => a.mul(b),
+        DIV => a.div(b),
+        _ => a.rem(b),
+    })
+}
+
+/// operands as promoted by the code for an integer pair
+enum P {
+    I(i64, i64),
+    U(u64, u64),
+}
+fn is_unsigned(d: &DataType) -> bool {
+    matches!(d, DataType::UInt(_) | DataType::BigUInt(_))
+}
+fn as_i64_like_code(d: &DataType) -> i64 {
+    match d {
+        DataType::Int(v) => v.0 as i64,
+        DataType::BigInt(v) => v.0,
+        DataType::UInt(v) => v.0 as i64,
+        DataType::BigUInt(v) => v.0 as i64, // wraps for >= 2^63 exactly like `promote_pair!`
+        _ => unreachable!(),
+    }
+}
+fn as_u64(d: &DataType) -> u64 {
+    match d {
+        DataType::UInt(v) => v.0 as u64,
+        DataType::BigUInt(v) => v.0,
+        _ => unreachable!(),
+    }
+}
+fn prom(a: &DataType, b: &DataType) -> P {
+    if is_unsigned(a) && is_unsigned(b) {
+        P::U(as_u64(a), as_u64(b))
+    } else {
+        P::I(as_i64_like_code(a), as_i64_like_code(b))
+    }
+}
+/// false iff an I pair holds a BigUInt >= 2^63 (value already changed by the promotion)
+fn exact(a: &DataType, b: &DataType) -> bool {
+    if is_unsigned(a) && is_unsigned(b) {
+        return true;
+    }
+    let big = |d: &DataType| matches!(d, DataType::BigUInt(v) if v.0 > i64::MAX as u64);
+    !big(a) && !big(b)
+}
+fn zero_div(op: u8, p: &P) -> bool {
+    (op == DIV || op == REM)
+        && match p {
+            P::I(_, y) => *y == 0,
+            P::U(_, y) => *y == 0,
+        }
+}
+fn min_neg1(op: u8, p: &P) -> bool {
+    (op == DIV || op == REM) && matches!(p, P::I(x, y) if *x == i64::MIN && *y == -1)
+}
+fn overflow(op: u8, p: &P) -> bool {
+    match (op, p) {
+        (ADD, P::I(x, y)) => x.checked_add(*y).is_none(),
+        (SUB, P::I(x, y)) => x.checked_sub(*y).is_none(),
+        (MUL, P::I(x, y)) => x.checked_mul(*y).is_none(),
+        (ADD, P::U(x, y)) => x.checked_add(*y).is_none(),
+        (SUB, P::U(x, y)) => x.checked_sub(*y).is_none(),
+        (MUL, P::U(x, y)) => x.checked_mul(*y).is_none(),
+        _ => false,
+    }
+}
+
+const R_OK: u8 = 0; // exact && !overflow && !zero && !min_neg1
+const R_OVERFLOW: u8 = 1; // exact && overflow
+const R_ZERO: u8 = 2; // divisor == 0
+const R_MIN_NEG1: u8 = 3; // exact && i64::MIN op -1
+const R_INEXACT: u8 = 4; // BigUInt >= 2^63 in an I pair (divisor != 0)
+
+fn in_region(region: u8, op: u8, a: &DataType, b: &DataType) -> bool {
+    let p = prom(a, b);
+    let ex = exact(a, b);
+    match region {
+        R_OK => ex && !overflow(op, &p) && !zero_div(op, &p) && !min_neg1(op, &p),
+        R_OVERFLOW => ex && overflow(op, &p),
+        R_ZERO => zero_div(op, &p),
+        R_MIN_NEG1 => ex && min_neg1(op, &p),
+        _ => !ex && !zero_div(op, &p),
+    }
+}
+/// one pair: call the operation iff the operands are in the region (no global assume: pairs are independent)
+fn one(region: u8, op: u8, a: DataType, b: DataType) {
+    let hit = in_region(region, op, &a, &b);
+    // reachability witness: some pair has operands in the region (placed before the call: a panic ends the path)
+    kani::cover!(hit, "reach");
+    if hit {
+        let r = arith(op, &a, &b);
+        if region == R_OK {
+            assert!(r.is_some(), "int_arith_in_range_returns_value");
+        }
+        std::mem::forget(r);
+    }
+}
+/// the 4 ordered pairs with two 32-bit operands (i64 / u64 arithmetic on them can only overflow for sub in u64)
+fn narrow_int_pairs(region: u8, op: u8) {
+    one(region, op, v_int(), v_int());
+    one(region, op, v_int(), v_uint());
+    one(region, op, v_uint(), v_int());
+    one(region, op, v_uint(), v_uint());
+}
+/// the 12 ordered pairs with at least one 64-bit operand
+fn wide_int_pairs(region: u8, op: u8) {
+    one(region, op, v_int(), v_bigint());
+    one(region, op, v_bigint(), v_int());
+    one(region, op, v_bigint(), v_bigint());
+    one(region, op, v_int(), v_biguint());
+    one(region, op, v_biguint(), v_int());
+    one(region, op, v_bigint(), v_uint());
+    one(region, op, v_uint(), v_bigint());
+    one(region, op, v_bigint(), v_biguint());
+    one(region, op, v_biguint(), v_bigint());
+    one(region, op, v_uint(), v_biguint());
+    one(region, op, v_biguint(), v_uint());
+    one(region, op, v_biguint(), v_biguint());
+}
+/// all 16 ordered integer pairs, fresh symbolic operands for each
+fn all_int_pairs(region: u8, op: u8) {
+    narrow_int_pairs(region, op);
+    wide_int_pairs(region, op);
+}
+macro_rules! hregion {
+    ($name:ident, $region:expr, $op:expr) => {
+        #[kani::proof]
+        #[kani::unwind(4)]
+        fn $name() {
+            all_int_pairs($region, $op);
+        }
+    };
+}
+
+// ---- complement region: must pass ------------------------------------------------------------------------
+// @obl harness=c16_arith_add_ok id=C16.arith[add][int pairs/in range] tier=quick funcs="DataType::add,PromotedAdd::promoted_add" bounds="all 16 ordered pairs of {Int,BigInt,UInt,BigUInt}, full width" assume="promoted operands exact and promoted sum representable"
+hregion!(c16_arith_add_ok, R_OK, ADD);
+// @obl harness=c16_arith_sub_ok id=C16.arith[sub][int pairs/in range] tier=quick funcs="DataType::sub,PromotedSub::promoted_sub" bounds="all 16 ordered pairs of {Int,BigInt,UInt,BigUInt}, full width" assume="promoted operands exact and promoted difference representable"
+hregion!(c16_arith_sub_ok, R_OK, SUB);
+// mul is split: CBMC has to decide a 64x64-bit multiplier-overflow query per pair (14 - 80 s each), one SAT instance
+// holding all 12 wide pairs does not finish in 300 s.
+macro_rules! hmul_ok {
+    ($name:ident, $( ($a:ident, $b:ident) ),+) => {
+        #[kani::proof]
+        #[kani::unwind(4)]
+        fn $name() {
+            $( one(R_OK, MUL, $a(), $b()); )+
+        }
+    };
+}
+// @obl harness=c16_arith_mul_ok_narrow id=C16.arith[mul][Int|UInt x Int|UInt] tier=quick funcs="DataType::mul,PromotedMul::promoted_mul" bounds="the 4 ordered pairs of {Int,UInt}, every value (product always fits i64 / u64)"
+hmul_ok!(c16_arith_mul_ok_narrow, (v_int, v_int), (v_int, v_uint), (v_uint, v_int), (v_uint, v_uint));
+// @obl harness=c16_arith_mul_ok_signed id=C16.arith[mul][Int,BigInt|BigInt,Int|BigInt,BigInt/in range] tier=quick funcs="DataType::mul,PromotedMul::promoted_mul" bounds="full width" assume="i64 product representable"
+hmul_ok!(c16_arith_mul_ok_signed, (v_int, v_bigint), (v_bigint, v_int), (v_bigint, v_bigint));
+// @obl harness=c16_arith_mul_ok_mixed32 id=C16.arith[mul][BigInt,UInt|UInt,BigInt|Int,BigUInt|BigUInt,Int/in range] tier=quick funcs="DataType::mul,PromotedMul::promoted_mul" bounds="full width" assume="BigUInt operand < 2^63, i64 product representable"
+hmul_ok!(c16_arith_mul_ok_mixed32, (v_bigint, v_uint), (v_uint, v_bigint), (v_int, v_biguint), (v_biguint, v_int));
+// @obl harness=c16_arith_mul_ok_mixed64 id=C16.arith[mul][BigInt,BigUInt|BigUInt,BigInt/in range] tier=quick funcs="DataType::mul,PromotedMul::promoted_mul" bounds="full width" assume="BigUInt operand < 2^63, i64 product representable"
+hmul_ok!(c16_arith_mul_ok_mixed64, (v_bigint, v_biguint), (v_biguint, v_bigint));
+// @obl harness=c16_arith_mul_ok_uint_biguint id=C16.arith[mul][UInt,BigUInt/in range] tier=quick funcs="DataType::mul,PromotedMul::promoted_mul" bounds="full width" assume="u64 product representable"
+hmul_ok!(c16_arith_mul_ok_uint_biguint, (v_uint, v_biguint));
+// @obl harness=c16_arith_mul_ok_biguint_uint id=C16.arith[mul][BigUInt,UInt/in range] tier=quick funcs="DataType::mul,PromotedMul::promoted_mul" bounds="full width" assume="u64 product representable"
+hmul_ok!(c16_arith_mul_ok_biguint_uint, (v_biguint, v_uint));
+// @obl harness=c16_arith_mul_ok_unsigned64 id=C16.arith[mul][BigUInt,BigUInt/in range] tier=thorough funcs="DataType::mul,PromotedMul::promoted_mul" bounds="full width" assume="u64 product representable"
+hmul_ok!(c16_arith_mul_ok_unsigned64, (v_biguint, v_biguint));
+// @obl harness=c16_arith_div_ok id=C16.arith[div][int pairs/in range] tier=quick funcs="DataType::div,PromotedDiv::promoted_div" bounds="all 16 ordered pairs of {Int,BigInt,UInt,BigUInt}, full width" assume="promoted operands exact, divisor != 0, not i64::MIN / -1"
+hregion!(c16_arith_div_ok, R_OK, DIV);
+// @obl harness=c16_arith_rem_ok id=C16.arith[rem][int pairs/in range] tier=quick funcs="DataType::rem,PromotedRem::promoted_rem" bounds="all 16 ordered pairs of {Int,BigInt,UInt,BigUInt}, full width" assume="promoted operands exact, divisor != 0, not i64::MIN % -1"
+hregion!(c16_arith_rem_ok, R_OK, REM);
+
+// ---- failing regions (each isolates one panic cause) ------------------------------------------------------
+// @obl harness=c16_arith_add_overflow id=C16.arith[add][int pairs/overflow] tier=quick funcs="DataType::add,PromotedAdd::promoted_add" bounds="all 16 ordered integer pairs restricted to: promoted sum not representable in i64 / u64"
+hregion!(c16_arith_add_overflow, R_OVERFLOW, ADD);
+// @obl harness=c16_arith_sub_overflow id=C16.arith[sub][int pairs/overflow] tier=quick funcs="DataType::sub,PromotedSub::promoted_sub" bounds="all 16 ordered integer pairs restricted to: promoted difference not representable in i64 / u64 (includes UInt a - UInt b with a < b)"
+hregion!(c16_arith_sub_overflow, R_OVERFLOW, SUB);
+// @obl harness=c16_arith_mul_overflow id=C16.arith[mul][int pairs/overflow] tier=quick funcs="DataType::mul,PromotedMul::promoted_mul" bounds="all 16 ordered integer pairs restricted to: promoted product not representable in i64 / u64"
+hregion!(c16_arith_mul_overflow, R_OVERFLOW, MUL);
+// @obl harness=c16_arith_div_zero id=C16.arith[div][int pairs/divisor 0] tier=quick funcs="DataType::div,PromotedDiv::promoted_div" bounds="all 16 ordered integer pairs restricted to divisor == 0"
+hregion!(c16_arith_div_zero, R_ZERO, DIV);
+// @obl harness=c16_arith_rem_zero id=C16.arith[rem][int pairs/divisor 0] tier=quick funcs="DataType::rem,PromotedRem::promoted_rem" bounds="all 16 ordered integer pairs restricted to divisor == 0"
+hregion!(c16_arith_rem_zero, R_ZERO, REM);
+// @obl harness=c16_arith_div_min_neg1 id=C16.arith[div][int pairs/MIN,-1] tier=quick funcs="DataType::div,PromotedDiv::promoted_div" bounds="the i64-promoted pairs restricted to i64::MIN / -1"
+hregion!(c16_arith_div_min_neg1, R_MIN_NEG1, DIV);
+// @obl harness=c16_arith_rem_min_neg1 id=C16.arith[rem][int pairs/MIN,-1] tier=quick funcs="DataType::rem,PromotedRem::promoted_rem" bounds="the i64-promoted pairs restricted to i64::MIN % -1"
+hregion!(c16_arith_rem_min_neg1, R_MIN_NEG1, REM);
+
+// BigUInt >= 2^63 next to a signed operand: `as i64` turns it negative, after which the i64 operation can overflow
+// although the mathematical result is representable (e.g. BigInt(-1) + BigUInt(2^63) = 2^63 - 1).
+fn inexact_pairs(op: u8) {
+    one(R_INEXACT, op, v_int(), v_biguint());
+    one(R_INEXACT, op, v_biguint(), v_int());
+    one(R_INEXACT, op, v_bigint(), v_biguint());
+    one(R_INEXACT, op, v_biguint(), v_bigint());
+}
+// @obl harness=c16_arith_biguint_wrap id=C16.arith[add,sub,mul,div,rem][signed x BigUInt>=2^63] tier=quick funcs="DataType::add,DataType::sub,DataType::mul,DataType::div,DataType::rem,Promote::promote_rhs" bounds="{Int,BigInt} x BigUInt both orders, BigUInt operand >= 2^63, divisor != 0, all five operations"
+#[kani::proof]
+#[kani::unwind(4)]
+fn c16_arith_biguint_wrap() {
+    inexact_pairs(ADD);
+    inexact_pairs(SUB);
+    inexact_pairs(MUL);
+    inexact_pairs(DIV);
+    inexact_pairs(REM);
+}
+
+// ---- float pairs: IEEE arithmetic never traps ----------------------------------------------------------------
+// (CBMC's `--nan-check` failures "NaN on addition ..." are not Rust panics; the driver ignores that category.)
+fn fl(op: u8, a: DataType, b: DataType) {
+    let r = arith(op, &a, &b);
+    assert!(matches!(r, Some(DataType::Double(_))), "float_arith_returns_double");
+    std::mem::forget(r);
+}
+fn all_float_pairs(op: u8) {
+    fl(op, v_double(), v_double());
+    fl(op, v_double(), v_float());
+    fl(op, v_float(), v_double());
+    fl(op, v_float(), v_float());
+    fl(op, v_double(), v_int());
+    fl(op, v_int(), v_double());
+    fl(op, v_double(), v_bigint());
+    fl(op, v_bigint(), v_double());
+    fl(op, v_double(), v_uint());
+    fl(op, v_uint(), v_double());
+    fl(op, v_double(), v_biguint());
+    fl(op, v_biguint(), v_double());
+    fl(op, v_float(), v_int());
+    fl(op, v_int(), v_float());
+    fl(op, v_float(), v_bigint());
+    fl(op, v_bigint(), v_float());
+    fl(op, v_float(), v_uint());
+    fl(op, v_uint(), v_float());
+    fl(op, v_float(), v_biguint());
+    fl(op, v_biguint(), v_float());
+}
+// @obl harness=c16_arith_float_total id=C16.arith[add,sub,mul,div,rem][float pairs] tier=quick funcs="DataType::add,DataType::sub,DataType::mul,DataType::div,DataType::rem" bounds="all 20 ordered pairs with a Float/Double operand, every bit pattern (NaN, inf, 0.0 divisor included)"
+#[kani::proof]
+#[kani::unwind(4)]
+fn c16_arith_float_total() {
+    kani::cover!(true, "reach");
+    all_float_pairs(ADD);
+    all_float_pairs(SUB);
+    all_float_pairs(MUL);
+    all_float_pairs(DIV);
+    all_float_pairs(REM);
+}
+
+// ---- non-numeric operands: Err, never a panic -------------------------------------------------------------------
+fn v_bool() -> DataType {
+    DataType::Bool(Bool(kani::any()))
+}
+fn v_blob2() -> DataType {
+    let d: [u8; 2] = kani::any();
+    let mut v: Vec<u8> = Vec::with_capacity(3);
+    v.push(4);
+    v.push(d[0]);
+    v.push(d[1]);
+    DataType::Blob(Blob::from(v.into_boxed_slice()))
+}
+fn nn(op: u8, a: &DataType, b: &DataType) {
+    let r = arith(op, a, b);
+    assert!(r.is_none(), "non_numeric_operand_is_error");
+    std::mem::forget(r);
+}
+fn non_numeric(op: u8) {
+    let (n, bo, bl, i, d) = (DataType::Null, v_bool(), v_blob2(), v_bigint(), v_double());
+    nn(op, &n, &n);
+    nn(op, &n, &i);
+    nn(op, &i, &n);
+    nn(op, &d, &n);
+    nn(op, &bo, &bo);
+    nn(op, &bo, &i);
+    nn(op, &i, &bo);
+    nn(op, &bl, &bl);
+    nn(op, &bl, &d);
+    nn(op, &i, &bl);
+    std::mem::forget((n, bo, bl, i, d));
+}
+// @obl harness=c16_arith_non_numeric id=C16.arith[add,sub,mul,div,rem][Null|Bool|Blob operand] tier=quick funcs="DataType::add,DataType::sub,DataType::mul,DataType::div,DataType::rem" bounds="Null, Bool, 2-byte Blob against each other and against BigInt / Double (zero divisors included)" unwind=6
+#[kani::proof]
+#[kani::unwind(6)]
+fn c16_arith_non_numeric() {
+    kani::cover!(true, "reach");
+    non_numeric(ADD);
+    non_numeric(SUB);
+    non_numeric(MUL);
+    non_numeric(DIV);
+    non_numeric(REM);
+}
+
+// ---- abs ----------------------------------------------------------------------------------------------------------
+// @obl harness=c16_abs_ok id=C16.abs[all kinds/not MIN] tier=quick funcs="DataType::abs,NumericOps::abs,NumericAbs::numeric_abs" bounds="every Int/BigInt except MIN, every UInt/BigUInt/Float/Double, Null, Bool"
+#[kani::proof]
+#[kani::unwind(4)]
+fn c16_abs_ok() {
+    let (i, b): (i32, i64) = (kani::any(), kani::any());
+    kani::assume(i != i32::MIN && b != i64::MIN);
+    kani::cover!(true, "reach");
+    match DataType::Int(Int32(i)).abs() {
+        DataType::Int(r) => assert!(r.0 >= 0 && (r.0 == i || r.0 == -i), "abs_value"),
+        _ => assert!(false, "abs_kind"),
+    }
+    match DataType::BigInt(Int64(b)).abs() {
+        DataType::BigInt(r) => assert!(r.0 >= 0 && (r.0 == b || r.0 == -b), "abs_value"),
+        _ => assert!(false, "abs_kind"),
+    }
+    let (u, bu, f, d) = (v_uint(), v_biguint(), v_float(), v_double());
+    assert!(matches!((u.abs(), &u), (DataType::UInt(r), DataType::UInt(x)) if r.0 == x.0), "abs_value");
+    assert!(matches!((bu.abs(), &bu), (DataType::BigUInt(r), DataType::BigUInt(x)) if r.0 == x.0), "abs_value");
+    assert!(matches!((f.abs(), &f), (DataType::Float(r), DataType::Float(x)) if r.0.to_bits() == (x.0.to_bits() & 0x7fff_ffff)), "abs_value");
+    assert!(matches!((d.abs(), &d), (DataType::Double(r), DataType::Double(x)) if r.0.to_bits() == (x.0.to_bits() & 0x7fff_ffff_ffff_ffff)), "abs_value");
+    assert!(matches!(DataType::Null.abs(), DataType::Null), "abs_of_null_is_null");
+    assert!(matches!(v_bool().abs(), DataType::Null), "abs_of_non_numeric_is_null");
+}
+// @obl harness=c16_abs_int_min id=C16.abs[Int/MIN] tier=quick funcs="DataType::abs,NumericAbs::numeric_abs" bounds="Int(i32::MIN)"
+#[kani::proof]
+#[kani::unwind(4)]
+fn c16_abs_int_min() {
+    kani::cover!(true, "reach");
+    let r = DataType::Int(Int32(i32::MIN)).abs();
+    std::mem::forget(r);
+}
+// @obl harness=c16_abs_bigint_min id=C16.abs[BigInt/MIN] tier=quick funcs="DataType::abs,NumericAbs::numeric_abs" bounds="BigInt(i64::MIN)"
+#[kani::proof]
+#[kani::unwind(4)]
+fn c16_abs_bigint_min() {
+    kani::cover!(true, "reach");
+    let r = DataType::BigInt(Int64(i64::MIN)).abs();
+    std::mem::forget(r);
+}
+
